@@ -58,6 +58,27 @@ def gen(rng, tier):
         F = [q for q in Q[k:] if rng.random() < 0.7] or [Q[-1]]
         n = {'Q': Q, 'Sigma': list(sigma), 'delta': sorted([q, a, sorted(qs)] for (q, a), qs in d.items()), 'q0': rng.choice(Q[:k]), 'F': F, 'eps': eps}
         cases.append({'kind': 'nfa', 'N': n, 'ws': G.words_str(n['Sigma'], 3), 'sets': [rng.sample(Q, 2)]})
+    # alphabets containing white space and punctuation (objects built with the class constructors), words that begin / end with them
+    for _ in range(60 if quick else 1000):
+        sigma = rng.choice([' a', '\ta', ' \t', 'a ', '%a', ' ,'])
+        d = G.random_dfa(rng, rng.randint(1, 4), sigma)
+        cases.append({'kind': 'dfa', 'D': d, 'ws': G.words_str(sigma, 3)})
+        n = G.random_nfa(rng, rng.randint(1, 4), sigma, rng.choice(['_', '']), peps=0.2)
+        cases.append({'kind': 'nfa', 'N': n, 'ws': G.words_str(sigma, 3), 'sets': []})
+    # unusual state names (substrings of each other, empty name, separators)
+    for _ in range(60 if quick else 1000):
+        k = rng.randint(2, 6)
+        n = G.random_nfa(rng, k, 'ab', rng.choice(['_', '']), names=G.tricky_names(rng, k, allow_empty=True), peps=0.3)
+        cases.append({'kind': 'nfa', 'N': n, 'ws': G.words_str('ab', 3), 'sets': [rng.sample(n['Q'], 2)]})
+    # the same object is queried, modified in place and queried again (no result may be remembered per object)
+    for _ in range(100 if quick else 1500):
+        sigma = rng.choice(['a', 'ab'])
+        k = rng.randint(1, 5)
+        ws = G.words_str(sigma, 3 if sigma == 'ab' else 5)
+        n1, n2 = G.random_nfa(rng, k, sigma, '_', peps=0.3), G.random_nfa(rng, k, sigma, '_', peps=0.3)
+        cases.append({'kind': 'nfa', 'N': n1, 'ws': ws, 'sets': [], 'then': {'kind': 'nfa', 'N': n2, 'ws': ws, 'sets': []}})
+        d1, d2 = G.random_dfa(rng, k, sigma), G.random_dfa(rng, k, sigma)
+        cases.append({'kind': 'dfa', 'D': d1, 'ws': ws, 'then': {'kind': 'dfa', 'D': d2, 'ws': ws}})
     # partial transition relations given as a plain dict (no defaultdict): a missing key means the empty set
     for _ in range(40 if quick else 600):
         sigma = rng.choice(['a', 'ab'])
@@ -66,18 +87,19 @@ def gen(rng, tier):
     return cases
 
 
-def observe(c):
+def _observe_dfa(c, D):
     from implutil import safe, ok
-    if c['kind'] == 'dfa':
-        from gambatools.dfa_algorithms import dfa_accepts_word
-        D = conv.dfa_obj(c['D'])
-        accs = []
-        for w in c['ws']:
-            r = safe(dfa_accepts_word, D, w)
-            accs.append(bool(r[1]) if ok(r) else None)
-        return {'accs': accs}
+    from gambatools.dfa_algorithms import dfa_accepts_word
+    accs = []
+    for w in c['ws']:
+        r = safe(dfa_accepts_word, D, w)
+        accs.append(bool(r[1]) if ok(r) else None)
+    return {'accs': accs}
+
+
+def _observe_nfa(c, N):
+    from implutil import safe, ok
     from gambatools.nfa_algorithms import nfa_accepts_word, epsilon_closure, _nfa_cache
-    N = conv.nfa_obj(c['N'], plain_dict=bool(c.get('plain')))
     accs = []
     for w in c['ws']:
         r = safe(nfa_accepts_word, N, w)
@@ -100,6 +122,32 @@ def observe(c):
         Eq = sorted([q, sorted(s)] for q, s in r[1][0].items())
         Eqa = sorted([q, a, sorted(s)] for (q, a), s in r[1][1].items())
     return {'accs': accs, 'closures': closures, 'Eq': Eq, 'Eqa': Eqa}
+
+
+def observe(c):
+    """`then`: the SAME object is modified in place (transitions, accepting states) into a second automaton and queried again"""
+    if c['kind'] == 'dfa':
+        D = conv.dfa_obj(c['D'])
+        o = _observe_dfa(c, D)
+        if c.get('then'):
+            d2 = c['then']['D']
+            D.delta.clear()
+            D.delta.update({(q, a): t for q, a, t in d2['delta']})
+            D.F.clear()
+            D.F.update(d2['F'])
+            o['then'] = _observe_dfa(c['then'], D)
+        return o
+    N = conv.nfa_obj(c['N'], plain_dict=bool(c.get('plain')))
+    o = _observe_nfa(c, N)
+    if c.get('then'):
+        n2 = c['then']['N']
+        N.delta.clear()
+        for (q, a, qs) in n2['delta']:
+            N.delta[(q, a)] = set(qs)
+        N.F.clear()
+        N.F.update(n2['F'])
+        o['then'] = _observe_nfa(c['then'], N)
+    return o
 
 
 def _nfa_names(n):
@@ -125,6 +173,12 @@ def nfa_lit(n):
 
 
 def encode(c, o):
+    if c.get('then'):
+        return 'worst_code [%s; %s]' % (_encode1(c, o), _encode1(c['then'], o['then']))
+    return _encode1(c, o)
+
+
+def _encode1(c, o):
     if c['kind'] == 'dfa':
         d = c['D']
         st, sy = L.state_names(d), L.symbol_names(d)
@@ -149,7 +203,8 @@ def explain(c):
 
 
 def key(c):
-    return conv.dfa_text(c['D']) if c['kind'] == 'dfa' else conv.nfa_text(c['N'])
+    k = conv.dfa_text(c['D']) if c['kind'] == 'dfa' else conv.nfa_text(c['N'])
+    return k + ('\n=then=>\n' + key(c['then']) if c.get('then') else '')
 
 
 def nontrivial(c, o):
